@@ -145,15 +145,18 @@ static std::vector<int> reduce(const std::vector<int>& h) {
 
 // ================================================================= RectClip64 / RectClipLines64
 namespace kR {
-enum { EX_P1, EX_P2, EX_P12, EX_P3, NOPS };
-static const char* names[] = {"Execute(P1)", "Execute(P2)", "Execute(P1+P2)", "Execute(P3 around the rectangle)"};
+enum { EX_P1, EX_P2, EX_P12, EX_P3, EX_OUT, EX_COVER, EX_PT, EX_ENTER, NOPS };
+static const char* names[] = {"Execute(P1)", "Execute(P2)", "Execute(P1+P2)", "Execute(P3 around the rectangle)", "Execute(path wholly outside, round a corner)", "Execute(path covering the rectangle)",
+                              "Execute(one-point path inside)", "Execute(path entering through one side)"};
 static CL::Rect64 rect(20, 20, 80, 80);
-static CL::Paths64 P1{mk({0, 50, 50, 0, 100, 50, 50, 100})}, P2{mk({30, 30, 60, 35, 50, 60}), mk({70, 10, 95, 40, 60, 90, 10, 95})}, P3{mk({-10, -10, 110, -10, 110, 110, 50, 50, -10, 110})};
+static CL::Paths64 P1{mk({0, 50, 50, 0, 100, 50, 50, 100})}, P2{mk({30, 30, 60, 35, 50, 60}), mk({70, 10, 95, 40, 60, 90, 10, 95})}, P3{mk({-10, -10, 110, -10, 110, 110, 50, 50, -10, 110})},
+    POUT{mk({-30, 50, 50, -30, -40, -40, -40, 30})}, PCOVER{mk({0, 0, 100, 0, 100, 100, 0, 100})}, PPT{mk({50, 50})}, PENTER{mk({40, 130, 50, 50, 60, 130}), mk({130, 40, 50, 45, 130, 60})};
 template <class RC> static std::string run_t(const std::vector<int>& h) {
   RC c(rect); std::string out;
   for (size_t i = 0; i < h.size(); ++i) {
     out.clear(); CL::Paths64 in;
-    switch (h[i]) { case EX_P1: in = P1; break; case EX_P2: in = P2; break; case EX_P12: in = P1; in.insert(in.end(), P2.begin(), P2.end()); break; case EX_P3: in = P3; break; }
+    switch (h[i]) { case EX_P1: in = P1; break; case EX_P2: in = P2; break; case EX_P12: in = P1; in.insert(in.end(), P2.begin(), P2.end()); break; case EX_P3: in = P3; break;
+      case EX_OUT: in = POUT; break; case EX_COVER: in = PCOVER; break; case EX_PT: in = PPT; break; case EX_ENTER: in = PENTER; break; }
     CL::Paths64 s = c.Execute(in); ser(out, s);
   }
   return out;
@@ -180,6 +183,7 @@ static void explore(Reporter& rep, const Kind& k, int depth) {
         rep.add("cases"); rep.add("histories_" + k.name);
         std::vector<int> red = k.reduce(h);
         rep.current_case = [&]() { Case c; c.set("kind", k.name).set("hist", hist_ids(h)); return c.s(); };
+        arm_watchdog(20.0);   // a history of microsecond-scale calls that burns 20 s of CPU is a hang
         std::string used = k.run(h);
         rep.add("lib_calls", h.size());
         auto it = fresh_cache.find(red);
@@ -194,7 +198,7 @@ static void explore(Reporter& rep, const Kind& k, int depth) {
           std::string tag = "history_dependence_" + k.name;
           rep.violation("C12", c.s(), tag, "history: " + hist_str(k, h) + " || fresh-object calls: " + hist_str(k, red) + " || used-object result " + used.substr(0, 300) + " || fresh result " + it->second.substr(0, 300));
         }
-        rep.current_case = nullptr;
+        rep.current_case = nullptr; arm_watchdog(0);
         return;
       }
       for (int op = 0; op < K; ++op) {
